@@ -508,11 +508,7 @@ impl VersionedSerializer {
         }
         
         // Check version skew
-        let version_diff = if stored_version > current_version {
-            stored_version.minor() - current_version.minor()
-        } else {
-            current_version.minor() - stored_version.minor()
-        };
+        let version_diff = stored_version.minor().abs_diff(current_version.minor());
         
         if version_diff > self.config.max_version_skew {
             return Err(ZiporaError::invalid_data(
